@@ -41,6 +41,7 @@ struct Config {
     int prec_levels = 3;         // term precedence values 0..prec_levels-1
     int rprec_max = 0;           // explicit rule precedence values 1..rprec_max on at most rprec_rules rules
     int rprec_rules = 1;
+    bool rich = false;           // additionally explore inputs over the terminals plus space, newline and a foreign byte (C01/C09)
     bool with_prec = false;      // enumerate precedence/associativity assignments for S/R grammars (always on for C05)
     bool verbose = false;
     long max_grammars_per_frame = -1;
@@ -585,6 +586,49 @@ static void explore_strings(FrameBase& f, const Gram& g, const ref::LR1& L, Ctx&
     if (err_gram && n_acc > 0 && n_rej > 0) { ctr["nontrivial_err"]++; if (cfg.has("C08")) add_sample("C08", jw::Obj().s("grammar", g.text()).s("frame", f.name).i("accepted", n_acc).i("rejected", n_rej).str()); }
 }
 
+// ------------------------------------------------------------------------------------------------ inputs with whitespace and foreign bytes (C01/C09)
+static std::vector<std::string>& rich_words(int T, int maxlen) {
+    static std::map<int, std::vector<std::string>> cache;
+    auto& v = cache[T * 100 + maxlen];
+    if (v.empty()) {
+        std::string al; for (int t = 0; t < T; ++t) al += char('a' + t); al += " \n?";
+        std::vector<std::string> all{""};
+        for (size_t lo = 0, l = 0; l < (size_t)maxlen; ++l) { size_t hi = all.size(); for (size_t i = lo; i < hi; ++i) for (char c : al) all.push_back(all[i] + c); lo = hi; }
+        for (auto& w : all) if (w.find_first_of(" \n?") != std::string::npos) v.push_back(w);   // pure terminal strings are explored by the main pass
+    }
+    return v;
+}
+static void explore_rich(FrameBase& f, const Gram& g, const ref::LR1& L) {
+    ref::RefTable rt{L}; const bool reduced_gram = ref::is_reduced(g);
+    for (const std::string& w : rich_words(g.T, cfg.maxlen)) {
+        if (cfg.has_input && w != cfg.one_input) continue;
+        cur_input = w; cur_phase = "rich-strings";
+        std::vector<ref::Tok> toks; std::vector<std::pair<int, int>> pos; bool lexfail = false; int fail_off = -1; int line = 1, col = 1; std::pair<int, int> failpos{0, 0};
+        for (size_t i = 0; i < w.size(); ++i) {
+            char c = w[i];
+            if (c == ' ') { ++col; continue; } if (c == '\n') { ++line; col = 1; continue; }
+            if (c == '?') { lexfail = true; fail_off = (int)i; failpos = {line, col}; break; }
+            toks.push_back(ref::Tok{c - 'a', (int)i, 1}); pos.push_back({line, col}); ++col;
+        }
+        std::pair<int, int> eofpos{line, col};
+        ref::Run ex = ref::drive(g, rt, toks, 400, lexfail);
+        if (ex.undefined || ex.horizon) { ctr["ref_no_verdict"]++; continue; }
+        ParseObs ro = f.parse(w.data(), w.size(), PM_OSTREAM); ctr["parses"]++; ctr["rich_parses"]++;
+        std::string in_vis; for (char c : w) in_vis += c == '\n' ? std::string("\\n") : std::string(1, c);
+        if (ro.horizon || ro.bounds || ro.threw) { add_viol(cfg.has("C09") ? "C09" : "C01", "no-result", f, g, w, "input '" + in_vis + "': horizon/exception"); continue; }
+        if (cfg.has("C01")) { ctr["C01.evals"]++; if (ro.ok != ex.ok) add_viol("C01", ex.ok ? "rejects-derivable" : "accepts-underivable", f, g, w, "input '" + in_vis + "': parse() returned " + (ro.ok ? "a value" : "empty") + ", the term sequence is " + (ex.ok ? "" : "not ") + "derivable" + (lexfail ? " (and a byte matches no term)" : "")); }
+        if (cfg.has("C09")) {
+            ctr["C09.evals"]++;
+            std::string want;
+            for (size_t k = 0; k < ex.err_tok.size(); ++k) { int ti = ex.err_tok[k]; auto pp = ti < (int)pos.size() ? pos[ti] : eofpos; want += "[" + std::to_string(pp.first) + ":" + std::to_string(pp.second) + "] PARSE: Syntax error: Unexpected '" + term_name(g, ex.err_term[k]) + "'\n"; }
+            if (ex.lex_error) want += "[" + std::to_string(failpos.first) + ":" + std::to_string(failpos.second) + "] PARSE: Unexpected character: ?\n";
+            outcomes["C09"].insert(ex.ok ? "silent-success-ws" : ex.lex_error ? "lexical-error" : "syntax-error-ws");
+            if (ex.lex_error || ex.ok || reduced_gram) { if (ro.err != want) add_viol("C09", ex.ok ? "output-on-success" : ro.err.empty() ? "silent-failure" : "wrong-report", f, g, w, "input '" + in_vis + "': stream '" + ro.err + "' expected '" + want + "'"); }
+            if (ro.ok != ro.err.empty()) add_viol("C09", "result-vs-report", f, g, w, "input '" + in_vis + "'");
+        }
+    }
+}
+
 // ------------------------------------------------------------------------------------------------ C18: scripted custom lexer
 static bool ws_default(unsigned char c) { return c == ' ' || c == '\n' || c == '\t' || c == '\r' || c == '\v' || c == '\f'; }
 static void explore_custom(FrameBase& f, const Gram& g, const ref::LR1& L) {
@@ -719,6 +763,7 @@ static void explore(FrameBase& f, const Gram& g) {
         if (!seen.insert(key).second) { ctr["C05.assignments_with_table_already_driven"]++; strings = false; }
     }
     if (strings) explore_strings(f, g, *L, cx, d, lr1, tc.equal);
+    if (strings && cfg.rich && lr1 && diag_clean && !err_gram) explore_rich(f, g, *L);
 }
 
 // ------------------------------------------------------------------------------------------------ enumeration
@@ -823,6 +868,7 @@ int main(int argc, char** argv) {
         else if (a == "--prec-levels") cfg.prec_levels = std::atoi(next().c_str());
         else if (a == "--rprec-max") cfg.rprec_max = std::atoi(next().c_str());
         else if (a == "--with-prec") cfg.with_prec = true;
+        else if (a == "--rich") cfg.rich = true;
         else if (a == "--max-per-frame") cfg.max_grammars_per_frame = std::atol(next().c_str());
         else if (a == "--one") { cfg.one = true; cfg.one_spec = next(); }
         else if (a == "--prec") cfg.one_prec = next();
